@@ -154,6 +154,8 @@ pub struct U {
     shapes: Vec<Instruction>,
     pub phs: Vec<QubitPlaceholder>,
     var_ix: HashMap<String, u64>,
+    /// rendered texts of observed definitions that belong to no generated payload
+    pub unknown: Vec<String>,
 }
 
 fn parse1(text: &str) -> Instruction {
@@ -170,6 +172,7 @@ impl U {
             shapes: Vec::new(),
             phs: (0..4).map(|_| QubitPlaceholder::default()).collect(),
             var_ix: HashMap::new(),
+            unknown: Vec::new(),
         };
         for s in SHAPES {
             let i = parse1(s);
@@ -274,38 +277,65 @@ impl U {
         qubit_slots_mut(&mut c).len()
     }
 
+    /// Quil text of a definition.  Payloads differ STRUCTURALLY (different attribute key sets,
+    /// lengths, forms, types, body lengths), not just in one value, so that a "merged" or partially
+    /// replaced definition is a text that belongs to no payload.
     fn def_text(ai: &AI) -> String {
         fn cal_body(sq: &str, payload: u64) -> String {
             let foreign = 4 + (payload / 4) % 3;
             match payload % 4 {
                 0 => format!("    PULSE {sq} \"a\" w0"),
-                1 => format!("    PULSE {foreign} \"a\" w0"),
+                1 => format!("    PULSE {foreign} \"a\" w0\n    FENCE {sq}"),
                 2 => format!("    FENCE {sq} {foreign}"),
-                _ => format!("    SHIFT-PHASE {foreign} \"a\" 1.0"),
+                _ => format!("    SHIFT-PHASE {foreign} \"a\" 1.0\n    PULSE {sq} \"b\" w1\n    DELAY {sq} 2.0"),
             }
         }
         match ai {
             AI::Decl { name, payload } if *payload >= 100 => format!("DECLARE lc{name} INTEGER[{}]", payload - 99),
-            AI::Decl { name, payload } => format!("DECLARE m{name} BIT[{}]", payload + 1),
+            AI::Decl { name, payload } => match payload % 4 {
+                0 => format!("DECLARE m{name} BIT[{}]", payload + 1),
+                1 => format!("DECLARE m{name} REAL[{}]", payload + 1),
+                2 => format!("DECLARE m{name} OCTET[{}] SHARING sh OFFSET {} BIT", payload + 1, payload + 1),
+                _ => format!("DECLARE m{name} INTEGER[{}] SHARING sh OFFSET 1 REAL {} BIT", payload + 1, payload),
+            },
             AI::FrameDef { key, payload } => {
                 let (qs, nm) = FRAME_KEYS[*key as usize];
-                format!("DEFFRAME {qs} \"{nm}\":\n    HARDWARE-OBJECT: \"h{payload}\"")
+                let attrs = match payload % 4 {
+                    0 => format!("    DIRECTION: \"tx\"\n    SAMPLE-RATE: {}.0", payload + 1),
+                    1 => format!("    INITIAL-FREQUENCY: {}.0", payload + 1),
+                    2 => format!("    HARDWARE-OBJECT: \"h{payload}\"\n    DIRECTION: \"rx\"\n    CENTER-FREQUENCY: 5.0"),
+                    _ => format!("    HARDWARE-OBJECT: \"h{payload}\""),
+                };
+                format!("DEFFRAME {qs} \"{nm}\":\n{attrs}")
             }
-            AI::WaveDef { name, payload } => format!("DEFWAVEFORM w{name}:\n    {}, 0", payload + 1),
+            AI::WaveDef { name, payload } => match payload % 3 {
+                0 => format!("DEFWAVEFORM w{name}:\n    {}, 0", payload + 1),
+                1 => format!("DEFWAVEFORM w{name}:\n    1, {}, 2", payload + 1),
+                _ => format!("DEFWAVEFORM w{name}(%a):\n    %a, {}, 0, 1", payload + 1),
+            },
             AI::GateDef { name, payload } => {
                 if *payload >= 50 {
-                    format!("DEFGATE G{name} q0 q1 AS SEQUENCE:\n    X q0\n    RZ({}) q1", payload)
+                    let extra = if payload % 2 == 1 { "\n    H q0" } else { "" };
+                    format!("DEFGATE G{name} q0 q1 AS SEQUENCE:\n    X q0\n    RZ({}) q1{extra}", payload)
                 } else {
-                    format!("DEFGATE G{name}:\n    {}, 0\n    0, 1", payload + 1)
+                    match payload % 3 {
+                        0 => format!("DEFGATE G{name}:\n    {}, 0\n    0, 1", payload + 1),
+                        1 => format!(
+                            "DEFGATE G{name}:\n    {}, 0, 0, 0\n    0, 1, 0, 0\n    0, 0, 1, 0\n    0, 0, 0, 1",
+                            payload + 1
+                        ),
+                        _ => format!("DEFGATE G{name}(%t):\n    {}, 0\n    0, %t", payload + 1),
+                    }
                 }
             }
-            AI::CircuitDef { name, payload } => {
-                let mut s = format!("DEFCIRCUIT C{name} q0:\n    RZ({}) q0", payload + 1);
-                if payload % 2 == 1 {
-                    s.push_str(&format!("\n    X {}", 3 + payload % 5));
-                }
-                s
-            }
+            AI::CircuitDef { name, payload } => match payload % 3 {
+                0 => format!("DEFCIRCUIT C{name} q0:\n    RZ({}) q0", payload + 1),
+                1 => format!("DEFCIRCUIT C{name} q0:\n    RZ({}) q0\n    X {}", payload + 1, 3 + payload % 5),
+                _ => format!(
+                    "DEFCIRCUIT C{name}(%a) q0 q1:\n    RZ(%a) q0\n    CNOT q0 q1\n    RX({}) q1",
+                    payload + 1
+                ),
+            },
             AI::Calib { sig, payload } => {
                 let (nm, qs) = CAL_SIGS[*sig as usize];
                 let sq = qs.split(' ').next().unwrap();
@@ -315,11 +345,18 @@ impl U {
                 let q = MCAL_SIGS[*sig as usize];
                 format!("DEFCAL MEASURE {q} addr:\n{}", cal_body(q, *payload))
             }
-            AI::Extern { name, payload } => match name {
-                Some(n) => format!("PRAGMA EXTERN f{n} \"(x{payload} : INTEGER)\""),
-                None if *payload == 0 => "PRAGMA EXTERN".to_string(),
-                None => format!("PRAGMA EXTERN \"(x{payload} : INTEGER)\""),
-            },
+            AI::Extern { name, payload } => {
+                let sig = match payload % 3 {
+                    0 => format!("(x{payload} : INTEGER)"),
+                    1 => format!("REAL (x{payload} : mut REAL[3])"),
+                    _ => format!("INTEGER (a : INTEGER, x{payload} : BIT)"),
+                };
+                match name {
+                    Some(n) => format!("PRAGMA EXTERN f{n} \"{sig}\""),
+                    None if *payload == 0 => "PRAGMA EXTERN".to_string(),
+                    None => format!("PRAGMA EXTERN \"{sig}\""),
+                }
+            }
             AI::Body { .. } | AI::Unknown(_) => unreachable!(),
         }
     }
@@ -367,7 +404,10 @@ impl U {
             let t = i.to_quil_or_debug();
             match self.registry.get(&t) {
                 Some(ai) => ai.clone(),
-                None => AI::Unknown(t),
+                None => {
+                    self.unknown.push(t.clone());
+                    AI::Unknown(t)
+                }
             }
         } else {
             let (k, qs) = self.shape_of(i);
@@ -453,6 +493,17 @@ impl U {
             s.push('\n');
         }
         s
+    }
+}
+
+/// report observed definitions whose full text maps back to no payload tag
+pub fn report_unknown(u: &mut U, run: &mut qv::Run, input: &str) {
+    for t in std::mem::take(&mut u.unknown) {
+        run.process_failure(
+            &format!("definition value is neither operand's (observed definition text maps to no input definition): {}", t.replace('\n', "\\n")),
+            input,
+            None,
+        );
     }
 }
 
